@@ -85,6 +85,7 @@ class Registry:
         self.opaque_iter = {}     # type -> fn(ex, st, recv) -> loops.Iter
         self.opaque_truth = {}    # type -> fn(ex, st, recv) -> z3 Bool
         self.opaque_compare = {}  # type -> fn(ex, st, left, opname, right) -> V   (overloaded comparison operators)
+        self.const_values = {}    # source text of a module-level constant (e.g. 'config.X') -> fn(ex, st) -> V, for constants the AST evaluator cannot fold
         self.axioms = []          # extra closed axioms (trusted library facts) added to every VC of this registry
 
     def add(self, c: Contract):
